@@ -36,10 +36,21 @@ def outputsOf (w : List CStep) : List Nat :=
 def raisedIn (steps : List CStep) : List Nat :=
   steps.filterMap (fun s => match s with | .raise e => some e | .write _ _ => none)
 
-/-- `Worker.extract`, parallel branch, after all joins: with a queue the workers share
-    (threads) the first queued exception is re-raised; a queue that is *not* shared with the
-    workers (the pinned process mode) is always empty in the parent -/
+/-- the least element of a list of error ids (the folder numbers), `none` for the empty list -/
+def leastOf : List Nat → Option Nat
+  | [] => none
+  | e :: es => match leastOf es with
+    | none => some e
+    | some m => some (min e m)
+
+/-- `Worker.extract`, parallel branch, after all joins: every queued error carries its folder's position and the
+    one of the FIRST folder in archive order is re-raised, whichever worker failed first (error ids are folder
+    numbers); a queue that is *not* shared with the workers (the pinned process mode) is always empty in the parent.
+    `afterJoinPinned` is the rule before the repair 07e0074: the first error to reach the queue. -/
 def afterJoin (shared : Bool) (schedule : List CStep) : Option Nat :=
+  if shared then leastOf (raisedIn schedule) else none
+
+def afterJoinPinned (shared : Bool) (schedule : List CStep) : Option Nat :=
   if shared then (raisedIn schedule).head? else none
 
 /-- executable scheduler: `sched` names, step by step, the worker that moves next; a worker
